@@ -279,8 +279,9 @@ def binop(op, a, b):
         if is_intlike(a) and isinstance(b, int) and not isinstance(b, bool) and b > 0:
             return i2v(zint(a) % b), []
         if is_strlike(a):
-            # text formatting: an opaque text (only used for messages)
-            return SStr(fresh("fmt", Bytes)), []
+            # text formatting: an uninterpreted function of the format and the operands (pure for plain operands; a heap
+            # operand's __str__ would run - not modelled, the result is only used as a name / message)
+            return SStr(TEXT_FMT(to_val(a), to_val(b))), []
     if isinstance(op, ast.BitOr):
         if isinstance(a, (SBool, bool)) and isinstance(b, (SBool, bool)):
             return b2v(z3.Or(zbool(a), zbool(b))), []
@@ -512,6 +513,9 @@ def seq_in_consts(s, consts):
     for c in rest:
         parts.append(s == seq_lit(c))
     return z3.Or(parts) if parts else FALSE
+
+
+TEXT_FMT = z3.Function("text_fmt", Val, Val, Bytes)
 
 
 def const_table_lookup(table, key):
